@@ -154,29 +154,6 @@ func c17CoqHeader(hxs c17Enc, h *bsctypes.Header, chainID uint64) string {
 		coqOpt(hok, hxs(hash[:])), coqOpt(sok, hxs(signer[:])))
 }
 
-func c17CoqBytesList(hxs c17Enc, l [][]byte) string {
-	items := make([]string, len(l))
-	for i, b := range l {
-		items[i] = hxs(b)
-	}
-	return coqList(items)
-}
-
-func c17CoqRecents(hxs c17Enc, rs []bsctypes.Signer) string {
-	items := make([]string, len(rs))
-	for i, s := range rs {
-		items[i] = fmt.Sprintf("((%d, %d), %s)", s.Height.RevisionNumber, s.Height.RevisionHeight, hxs(s.Validator))
-	}
-	return coqList(items)
-}
-
-func c17CoqCons(hxs c17Enc, c *bsctypes.ConsensusState) string {
-	if c == nil {
-		return "None"
-	}
-	return fmt.Sprintf("(Some (Cons %d (%d, %d) %s))", c.Timestamp, c.Number.RevisionNumber, c.Number.RevisionHeight, hxs(c.Root))
-}
-
 func c17Pending(cdc codec.BinaryCodec, store storetypes.KVStore) [][]byte {
 	if store.Get([]byte(bsctypes.PrefixPendingValidators)) == nil {
 		return nil
